@@ -171,6 +171,62 @@ theorem rnd_consumes {P : Params} {bs : Bytes} {r : Option Nat} {rest : Bytes}
     rw [hk3]
     exact Nat.mul_pos hk1 (by omega)
 
+/-! #### key generation and `random_ciphertexts` from RNG bytes -/
+
+/-- `PrivateKey::gen`: the secret is a canonical exponent, the public element is exactly `g^sk`
+    reduced, and it is a group member -/
+theorem keygen_spec {P : Params} (fl : Flavour) (hP : SafePrimeGroup P) {bs : Bytes} {sk pk : Nat}
+    {rest : Bytes} (h : bigintKeyGen P fl bs = some (sk, pk, rest)) :
+    sk < P.q ∧ Nat'.expFromNat P sk = some sk ∧ pk = powm P.g sk P.p ∧ natValid P pk ∧
+      bigintRndExp P bs = some (sk, rest) := by
+  unfold bigintKeyGen at h
+  split at h
+  · cases h
+  · next x rest' hs =>
+    simp only [Option.some.injEq, Prod.mk.injEq] at h
+    obtain ⟨rfl, rfl, rfl⟩ := h
+    refine ⟨rnd_exp_in_range hs, rnd_exp_valid hs, rfl, ?_, hs⟩
+    exact natValid_powm _ (natValid_of_pow P P.g (by rw [← powm_eq]; exact hP.g_order))
+
+/-- every secret key in `[0, q)` can be generated -/
+theorem keygen_full_range (P : Params) (fl : Flavour) {x : Nat} (hx : x < P.q) :
+    ∃ bs : Bytes, bigintKeyGen P fl bs = some (x, powm P.g x P.p, []) := by
+  obtain ⟨bs, h⟩ := rnd_exp_full_range P hx
+  exact ⟨bs, by unfold bigintKeyGen; rw [h]; rfl⟩
+
+/-- `random_ciphertexts(n)`: exactly n ciphertexts, every component a canonical group member -/
+theorem random_cts_spec {P : Params} (hP : SafePrimeGroup P) (n : Nat) {bs : Bytes}
+    {cs : List (Ciphertext Nat)} {rest : Bytes} (h : bigintRandomCts P n bs = some (cs, rest)) :
+    cs.length = n ∧ ∀ c ∈ cs, (natValid P c.mhr ∧ 1 ≤ c.mhr ∧ c.mhr < P.p) ∧
+      (natValid P c.gr ∧ 1 ≤ c.gr ∧ c.gr < P.p) := by
+  induction n generalizing bs cs rest with
+  | zero =>
+    simp only [bigintRandomCts, Option.some.injEq, Prod.mk.injEq] at h
+    obtain ⟨rfl, _⟩ := h
+    simp
+  | succ n ih =>
+    unfold bigintRandomCts at h
+    split at h
+    · next a r1 h1 =>
+      split at h
+      · next b r2 h2 =>
+        split at h
+        · next cs' r3 h3 =>
+          simp only [Option.some.injEq, Prod.mk.injEq] at h
+          obtain ⟨rfl, _⟩ := h
+          obtain ⟨hl, hm⟩ := ih h3
+          obtain ⟨e1, he1, v1⟩ := rnd_member hP h1
+          obtain ⟨e2, he2, v2⟩ := rnd_member hP h2
+          cases he1; cases he2
+          refine ⟨by simp [hl], ?_⟩
+          intro c hc
+          rcases List.mem_cons.1 hc with rfl | hc
+          · exact ⟨v1, v2⟩
+          · exact hm c hc
+        · cases h
+      · cases h
+    · cases h
+
 /-! #### pre-repair witnesses (F4, F5) -/
 
 /-- F4 (num-bigint `rnd_plaintext` used to draw from the exponent range `[0, q)`): `q - 1` is a
